@@ -62,8 +62,22 @@ def matmul(
         raise ValueError(ERROR_MESSAGE % 0)
     if not x2.shape:
         raise ValueError(ERROR_MESSAGE % 1)
+    # 1-D operands are promoted to matrices and the added axis removed again
+    squeeze = ()
+    if x1.ndim == 1:
+        x1 = numpoly.reshape(x1, (1,) + x1.shape)
+        squeeze += (-2,)
+    if x2.ndim == 1:
+        x2 = numpoly.reshape(x2, x2.shape + (1,))
+        squeeze += (-1,)
     x1 = numpoly.reshape(x1, x1.shape + (1,))
     x2 = numpoly.reshape(x2, x2.shape[:-2] + (1,) + x2.shape[-2:])
     x1, x2 = numpoly.broadcast_arrays(x1, x2)
     out_ = numpoly.multiply(x1, x2, out=out, **kwargs)
-    return numpoly.sum(out_, axis=-2)
+    out_ = numpoly.sum(out_, axis=-2)
+    if squeeze:
+        shape = list(out_.shape)
+        for axis in squeeze:
+            shape[axis] = None
+        out_ = numpoly.reshape(out_, [dim for dim in shape if dim is not None])
+    return out_
